@@ -110,6 +110,10 @@ type pipeline struct {
 	name string
 	cmds [][]string
 	long bool
+	// inject: a command with one argument replaced by text that looks like protocol, followed by
+	// PING: only the framing is judged (exactly two replies, the second one +PONG), sent unsplit
+	// and byte by byte
+	inject bool
 }
 
 func c01Pipelines(tier string) []pipeline {
@@ -137,6 +141,37 @@ func c01Pipelines(tier string) []pipeline {
 	add("CLIENT LIST under RESP2", []string{"CLIENT", "LIST"}, []string{"PING"})
 	add("CLIENT SETNAME + INFO", []string{"CLIENT", "SETNAME", "n1"}, []string{"CLIENT", "GETNAME"}, []string{"PING"})
 	add("mixed", []string{"SET", "a", "1"}, []string{"INCR", "a"}, []string{"MGET", "a", "nokey"}, []string{"DEL", "a"}, []string{"EXISTS", "a"})
+	// every command template with every argument position replaced by protocol look-alikes: whatever
+	// the command echoes into its reply (an error message quoting the argument, a stored value read
+	// back) must not break the framing
+	seen := map[string]bool{}
+	var tpls [][]string
+	for _, k := range []string{"ks", "kl", "kh", "kz", "kn"} {
+		for _, op := range commandMatrix(k, true) {
+			tpls = append(tpls, op.Args)
+		}
+	}
+	tpls = append(tpls, c13OptionTemplates...)
+	for _, t := range tpls {
+		if blockingCmds[strings.ToUpper(t[0])] || strings.EqualFold(t[0], "QUIT") || strings.EqualFold(t[0], "RESET") {
+			continue
+		}
+		for pos := 0; pos < len(t); pos++ {
+			for _, inj := range []string{"x\r\n+OK", "\r\n:1\r\n"} {
+				if tier != "thorough" && inj != "x\r\n+OK" {
+					continue
+				}
+				m := append([]string{}, t...)
+				m[pos] = inj
+				key := strings.Join(m, "\x00")
+				if seen[key] {
+					continue
+				}
+				seen[key] = true
+				out = append(out, pipeline{name: fmt.Sprintf("inject %q", m), cmds: [][]string{m, {"PING"}}, inject: true})
+			}
+		}
+	}
 	for _, n := range []int{8190, 8191, 8192, 8193, 8194, 9000, 16384, 20000} {
 		if tier != "thorough" && (n == 8191 || n == 8193 || n == 20000) {
 			continue
@@ -178,6 +213,36 @@ func runC01(p pipeline, tier string) (cr caseResult) {
 	}
 	if msg2 != "" {
 		return viol("second-connection", msg2)
+	}
+	if p.inject {
+		if replies[1].K != vm.KStatus || replies[1].S != "PONG" {
+			return viol("reply-mismatch|inject:"+strings.ToUpper(p.cmds[0][0]), fmt.Sprintf("the reply to PING after %q is %s", clipArgs(p.cmds[0]), replies[1]))
+		}
+		var all []int
+		for c := 1; c < len(stream); c++ {
+			all = append(all, c)
+		}
+		segs := make([][]byte, 0, len(stream))
+		for i := range stream {
+			segs = append(segs, stream[i:i+1])
+		}
+		r, _ := runWire(segs, nil)
+		cr.Units++
+		cr.NTUnits++
+		if r.term == verifrt.TermPanic {
+			return viol("panic@"+r.panicAt+"|split", "byte by byte: the connection goroutine panics: "+r.panicMsg)
+		}
+		if strings.EqualFold(p.cmds[0][0], "HELLO") {
+			// HELLO's reply is built from a Go map: under RESP2 a flat array whose order changes from run
+			// to run; only its framing is compared
+			if rs, err := vm.ParseAll(r.out); err != nil || len(rs) != 2 {
+				return viol("split-changes-replies|byte-at-a-time", fmt.Sprintf("byte by byte: %d replies (%v): %q", len(rs), err, clipB(r.out)))
+			}
+		} else if !bytes.Equal(r.out, base.out) && !sameReplies(r.out, base.out) {
+			return viol("split-changes-replies|byte-at-a-time", fmt.Sprintf("byte by byte: replies %q differ from the unsplit run %q", clipB(r.out), clipB(base.out)))
+		}
+		cr.Status = "ok"
+		return
 	}
 	// expected replies by the reference model
 	model := vm.NewModel(epochMs)
